@@ -117,9 +117,10 @@ SdfReadEv(t) ==
   IF t.lines # SdfFile(t.names, t.mols, t.style) THEN "OOD BadProposal" ELSE
   LET R == SdfRecords(t.lines) IN
   IF t.back.exc # "" THEN "REJECT ReadRaised:" \o t.back.exc \o ReaderEndTag(t.back.exc, R) ELSE
-  IF Len(t.back.mols) # Len(t.mols) THEN "REJECT RecordCount" ELSE
+  \* the caller may ask for the first `limit` records only (0: all of them)
+  IF Len(t.back.mols) # (IF t.limit > 0 /\ t.limit < Len(t.mols) THEN t.limit ELSE Len(t.mols)) THEN "REJECT RecordCount" ELSE
   IF t.back.offgrid THEN "REJECT OnGrid" ELSE
-  IF \E i \in DOMAIN t.mols : ~SdfAtomsSame(AtomsOf(t.mols[i]), t.back.mols[i].atoms) THEN "REJECT ReaderContent" ELSE
+  IF \E i \in DOMAIN t.back.mols : ~SdfAtomsSame(AtomsOf(t.mols[i]), t.back.mols[i].atoms) THEN "REJECT ReaderContent" ELSE
   "ACCEPT"
 
 (* ---- a V2000 file of the repository: reader, then writer, then reader -- *)
